@@ -262,6 +262,8 @@ void glue_rx(glue_node *n, void *buf, size_t len) {
     }
 }
 
+void glue_set_mac(glue_node *n, const uint8_t mac[6]) { memcpy(n->macAddress, mac, 6); }
+
 void glue_esp32_rx(glue_node *n, const void *exact_copy, size_t len) {
     if (n->have_esp) {
         lltd_esp32_handle_frame(&n->esp, exact_copy, len);
